@@ -61,6 +61,8 @@ static inline ptrdiff_t creader_readline(struct creader *reader,
     }
     else
     {
+        // the last line has no terminator: it ends the text
+        reader->cursor = it;
         return it - *token;
     }
 
